@@ -233,6 +233,14 @@ def run (ctx):
     if any(f in ('e.errno != EAGAIN',) for f in fs): okf = True
     c = [c for c in q.node_calls(n) if call_name(c) == 'disconnect'][0]
   ctx.ob('R-EFFECT', csend, "a fatal socket error disconnects the connection", okf, "disconnect under errno != EAGAIN" if okf else "fatal error path does not disconnect", csend, 'D5')
+  # the fatal-error path disconnects with the event deferred; the close() that follows must then still announce the loss exactly
+  # once: the state table of Connection.disconnect (shared with C09)
+  from . import c09
+  disc_ = con.find_method('disconnect')
+  if disc_ is not None:
+    ctx.analysed(disc_); gd_ = q.cfg_of(disc_)
+    dn_ = [q.enclosing_stmt_node(gd_, c) for c in calls_in(disc_.node) if call_name(c) in ('raiseEvent', 'raiseEventNoErrors') and c.args and norm(c.args[0]) == 'ConnectionDown']
+    c09.disconnect_states(ctx, repo, mod, con, disc_, [d for d in dn_ if d is not None], 'D5')
   g = q.cfg_of(drun)
   dfat = g.nodes_with_call(lambda c: call_name(c) == 'disconnect')
   okd = False
